@@ -9,7 +9,7 @@ placeholders), `coords` (`ENU` default, `GEO`, `ECEF`: the class of the position
 `csv`: written to a file and read back with TrackReader.readFromFile), via `network` (Network.simplify on an edge geometry).
 Style `deep-*`: several hundred fixes whose Douglas-Peucker split chain is hundreds of levels deep. A case must be well formed (well_formed():
 what the generators can produce); impl() answers {"harness": why} when the INPUT of a case cannot be built -- never an implementation failure."""
-import itertools, math, os, tempfile, datetime, shutil
+import itertools, math, os, random, tempfile, datetime, shutil
 from fractions import Fraction
 from engine import Prop, fbits, bitsf, close, ratstr, parse_rat
 
@@ -212,6 +212,7 @@ class P(Prop):
     id = "C16"
     design_ref = "DESIGN.md section 5, C16"
     M = "TracklibVerif.Props.C16"
+    M2 = "TracklibVerif.Props.C16b"
     theorems = [
         (M, "TV.C16.dp_sublist", "T1: Douglas-Peucker's result is a sub-sequence (same observations, same order) of the input; any scalar type (the Float model included), any tolerance"),
         (M, "TV.C16.dp_ends", "T2: the result starts with the first and ends with the last input observation, and keeps >= 2 fixes of a track of >= 2 fixes; closed loops, duplicates included; any scalar type"),
@@ -256,6 +257,18 @@ class P(Prop):
         (M, "TV.C16.vw_all_levels_sound", "T13: every result of visvalingamAll -- the driver's level-by-level enumeration (states with the same observations merged, given up beyond `cap` states per level) that the correspondence check accepts for Visvalingam -- is such a run"),
         (M, "TV.C16.vw_any_tiebreak_threshold", "T10 for every run of T13 (any arithmetic on a linear order, T6's hypothesis): every interior fix of the result spans with its neighbours in the result a triangle of computed area > eps^2"),
         (M, "TV.C16.vw_first_kept_iff", "T14 (mixed columns: some areas finite, some infinite / NaN; any scalar type, any tolerance, observations pairwise different): Visvalingam keeps the FIRST observation if and only if every pass of its loop finds a minimum (some '@aire' entry is a number below ARGMIN's initial minimum +inf or -- since b728412 -- equal to it: only NaN is not found); T6 / T6' are the two extreme cases"),
+        (M2, "TV.C16.vw_sublist_ends_no_nan", "T6 at full strength (every column without NaN): when every triangle area of the track is a number below ARGMIN's start value +inf OR EQUAL to it (on doubles: not NaN; infinite areas are found since b728412), for any tolerance and scalar type: sub-sequence, FIRST and last observation kept, >= 2 kept, every pass finds a minimum, the loop stops by itself"),
+        (M2, "TV.C16.vw_any_tiebreak_no_nan", "T13 on columns without NaN (infinite areas allowed): every run with another choice among equally small triangles keeps the first and the last observation and >= 2"),
+        (M2, "TV.C16.vw_track_ends_no_nan", "T9 (ends) on columns without NaN: on the Track object (well-formed feature table without '@aire', >= 2 fixes, no NaN area -- infinite areas allowed) the first and the last OBSERVATION (feature rows included) are kept, any tolerance"),
+        (M2, "TV.C16.vw_track_correct_no_nan", "C16 for Visvalingam on the Track object in one piece, every column without NaN: the call succeeds, the observations returned (feature rows included) are a sub-sequence with the first and the last observation, >= 2 of them, dict / uid / tid / base the input's"),
+        (M2, "TV.C16.vw_all_levels_complete", "T13 (completeness; closes round 6's open statement on columns without NaN): on a track of >= 2 observations identified by their tags with no NaN area, whenever visvalingamAll does not give up its result is EXACTLY the set of results of the runs with some choice among equally small triangles (sound and complete: merging the states that hold the same observations loses nothing, a state being a function of its observations there)"),
+        (M2, "TV.C16.vw_all_nan", "T6' for the WHOLE run (what exactly happens with NaN areas, extreme case): when no triangle area of the track is a number <= ARGMIN's start value nor > eps*eps (on doubles: every area NaN) every pass takes ARGMIN's default index 0 and Visvalingam returns exactly the LAST TWO observations; any scalar type, any tolerance"),
+        (M2, "TV.C16.dp_depth_defined_iff", "T16: the depth of douglas_peucker's recursion (dpDepth: nested calls below the outermost one; compared with the real code by the `depth` stream) is defined exactly when the call returns"),
+        (M2, "TV.C16.dp_depth_le", "T16 (bound; finding dp-recursion-depth seen from the model): under T3's hypotheses (eps > 0, distance_to_segment(A; A, B) never > 0) the recursion on a track of n fixes is at most n - 2 levels deep (0 for n <= 2): at most n - 1 frames of douglas_peucker; any scalar type"),
+        (M2, "TV.C16.dp_depth_peel", "T16: on a track on which every split peels exactly one fix (farthest fix = L[1], not below the tolerance, at every level) the recursion is exactly len(L) - 2 levels deep; any scalar type"),
+        (M2, "TV.C16.dp_depth_bound_zero_laws", "T16 under rounded arithmetic (the six zero laws of T3'): depth defined and <= n - 2 for every eps > 0"),
+        (M2, "TV.C16.dp_depth_bound", "T16 over an ordered field with an exact sqrt: for every track and every eps > 0 the depth is defined and <= n - 2"),
+        (M2, "TV.C16.dp_depth_attained", "T16 (the bound is attained; the finding's witness as a family): for EVERY n the track of n fixes on the y-axis with ordinates n, -(n-1), n-2, ..., +-1 and every tolerance 0 < eps <= 1 makes douglas_peucker recurse exactly n - 2 levels deep (ordered field, exact sqrt): RecursionError at n = 1100 is a theorem about the model + CPython's limit of 1000 frames"),
     ]
     partial = []
     open_statements = [
@@ -266,21 +279,30 @@ class P(Prop):
         "Visvalingam when areas are infinite or NaN, i.e. not below ARGMIN's initial minimum +inf (coordinates ~1e154 and more, not ENU tracks): T12 (vw_any) proves, "
         "for every column and every pass, sub-sequence, last observation kept, >= 2 kept and termination; T14 (vw_first_kept_iff) characterises the mixed "
         "columns at the level of the passes: the first observation survives iff every pass finds an entry that is a number <= the sentinel (since b728412 an infinite "
-        "area IS found, only a column of NaN is not: T6'' / T6' are the extreme cases). T6 itself (both ends kept) is still stated for areas BELOW the sentinel; "
-        "its extension to areas equal to it (infinite) is not stated as a theorem (T14 gives it pass by pass). "
-        "Still open: the same condition expressed on the INPUT coordinates alone (which areas are recomputed to what depends on the whole run) -- "
-        "compared with the model only (stream `wild`)",
+        "area IS found, only a column of NaN is not: T6'' / T6' are the extreme cases). T6 is now proved for every column without NaN (vw_sublist_ends_no_nan: "
+        "areas below the sentinel OR equal to it, i.e. infinite areas included; vw_any_tiebreak_no_nan for every tie-break run) and the whole run on a column of NaN "
+        "only is proved to return the last two observations (vw_all_nan; its hypothesis quantifies over all triples of fixes of the track, repeated ones "
+        "included: on doubles, infinite coordinates or differences that all overflow). "
+        "Still open: MIXED columns expressed on the INPUT coordinates alone (which areas are recomputed to what depends on the whole run; T14 gives the "
+        "condition pass by pass) -- compared with the model only (stream `wild`)",
         "T10 (vw_threshold) now holds for any arithmetic on a linear order, i.e. for the COMPUTED areas and the computed eps*eps; what it cannot say is how a computed "
         "area relates to the exact one: an exact area within an ulp of eps^2 may fall on either side (model and code agree bit for bit there: correspondence)",
         "T13 (ties in Visvalingam): every result of visvalingamAll is proved to be a run with some choice among equally small triangles (soundness of what the "
         "correspondence check accepts) and the code's own run is one; that the level-by-level enumeration with merged states returns ALL such runs when it does "
-        "not give up (completeness) is not proved -- a missing run would only show as a correspondence disagreement, never as an accepted wrong result. The "
+        "not give up (completeness) is now proved on columns without NaN (vw_all_levels_complete: the result is exactly the set of such runs). Still open: "
+        "completeness when some area is NaN (then index 0 can be removed, entry 0 keeps a stale wrap-around area and a state is no longer a function of its "
+        "observations: two merged states may have different futures) -- a missing run would only show as a correspondence disagreement, never as an accepted wrong result. The "
         "Track-level model (vwTrk) is the code's own run only: for another run the harness checks dict / uid / tid / base / no_data_value against the model "
         "(they do not depend on the run) and positions / feature rows of the kept observations against the input",
+        "T16 (depth of douglas_peucker's recursion): the bound n - 2 and its attainment are theorems about the model (dp_depth_le, dp_depth_attained; the `depth` "
+        "stream compares the model's depth with the real code's, measured by a counting wrapper). What stays outside: how many frames CPython has left when "
+        "douglas_peucker is entered (sys.getrecursionlimit() minus the caller's stack) -- the single assumption under which 'RecursionError iff depth + 1 frames "
+        "do not fit' follows; and the attaining family is proved over an ordered field with an exact sqrt (on doubles it is sampled: oscillations of 0..40 and "
+        "50..300 fixes in the `depth` stream, 120..800 levels in the deep-* tracks)",
     ]
     modelled = ("util/geometry.py distance_to_segment (l == 0 branch, normalised scalar product, clamp to the segment's box), "
                 "triangle_area, aire_visval; algo/simplification.py douglas_peucker (n <= 2 base case, first farthest fix by strict >, "
-                "dmax < eps, split L[0:imax] / L[imax:n], recursion, concatenation) and visvalingam (eps = eps * eps -- b704eae; `eps **= 2` before --, '@aire' column with NaN at "
+                "dmax < eps, split L[0:imax] / L[imax:n], recursion, concatenation; the DEPTH of that recursion: dpDepth, nested calls below the outermost one -- T16) and visvalingam (eps = eps * eps -- b704eae; `eps **= 2` before --, '@aire' column with NaN at "
                 "both ends, Operator.ARGMIN with its initial minimum float('inf') (68863c7; 1e300 before) and its `idmin = None` / `val < minimum or (idmin is None and val == minimum)` scan (b728412; "
                 "`idmin = 0` / `val < minimum` before: a column [nan, inf, inf] answered 0), break on area > eps, removal, two neighbour updates). "
                 "The freedom left by ties in Visvalingam (Model/SimplifyTie.lean): vwBody (the loop body for an arbitrary index), tieIds (ARGMIN's answer and every index "
@@ -311,9 +333,10 @@ class P(Prop):
                "one Obs object occurring twice in a track (track + track, addObs(track[0])) is outside the model, which is on values: Visvalingam stores its areas in the Obs "
                "objects, so two positions then share one '@aire' value (findings/C16.json, class vw-shared-obs-object; not generated)",
                "feature rows are as long as the feature dict says (C01's invariant)",
-               "CPython's recursion limit (1000 frames) is outside the model: douglas_peucker recurses once per split level, T3 proves the depth is at most len(track), "
-               "and a track of more than ~1000 fixes shaped so that every split peels one fix raises RecursionError (findings/C16.json, class dp-recursion-depth; "
-               "the harness generates split chains of at most ~800 levels: deep-* tracks)"]
+               "CPython's recursion limit (1000 frames) is outside the model; the depth of the recursion is inside it since T16: douglas_peucker recurses once per split "
+               "level, the depth is at most len(track) - 2 (dp_depth_le) and exactly that on the oscillation of every length (dp_depth_attained), so a track of more "
+               "than ~1000 fixes of that shape raises RecursionError (findings/C16.json, class dp-recursion-depth; the harness generates split chains of at most "
+               "~800 levels: deep-* tracks, and compares the depth itself on the `depth` stream)"]
     rule = ("[list-level streams] tracks of 1..9 fixes on integer lattices of side 2..6 (collinear runs, consecutive duplicates, revisited positions, closed loops "
             "forced with stated probabilities), quarter-step dyadic and 2-decimal float tracks; tolerances 1e-3..1e3 (ints and floats), random "
             "3-digit tolerances over 1e-6..1e6, tolerances far above any extent up to the largest double (1e154..1.797e308: eps*eps is infinite in Visvalingam) and tolerances equal to the float distance of a fix to the chord (the dmax == eps boundary); every fix carries its "
@@ -341,6 +364,9 @@ class P(Prop):
             "[deep split chains, stream `trk`] 8 (quick) / 48 (thorough) tracks of 120..1040 fixes shaped so that Douglas-Peucker's recursion is 120..800 levels deep "
             "(collinear oscillation of decreasing amplitude, constant zig-zag, boustrophedon survey of 120..520 lines, oscillation of growing amplitude; either axis, "
             "closed or not), tolerance below the spacing (nothing may be dropped) or 0.1 / 3 / 30 times that; 80 % Douglas-Peucker through every entry point, 20 % Visvalingam. "
+            "[stream `depth`, T16] the depth of douglas_peucker's recursion on the real code (nested calls, counted by a wrapper around the module-level name the function calls "
+            "itself through) against the model's dpDepth: the oscillation of the finding dp-recursion-depth for every n in 0..40 (depth n - 2), 1500 (quick) / 12000 (thorough) "
+            "random tracks of the list-level generator with its tolerances, 6 / 40 oscillations and zig-zags of 50..300 fixes; correspondence only (the property does not speak of the depth). "
             "[ties] Visvalingam's result is compared with the model's own run and, when different, accepted iff it is one of the runs with another choice among equally "
             "small triangles (visvalingamAll, tracks of <= 60 fixes, up to 130 / 32 states per level; T13) -- as Douglas-Peucker's is with dpAllFuel (T7). "
             "[stream `coll`: TrackCollection.simplify, always generated since 039f340] every collection of 0, 1, 2 tracks from a pool of six (0, 1, 2, 3, 5 fixes -- a closed loop --, "
@@ -397,6 +423,7 @@ class P(Prop):
                  "every track of 3 fixes on the lattice {0, 3e-5, 6e-5}^2 (all differences below the 1e-4 of ENUCoords.__eq__) x tolerances "
                  "{1.5e-5, 3e-5, 4.5e-5} x {Douglas-Peucker, Visvalingam} through simplify()",
                  "simplify(track, tol, mode) for every mode in -2..11: which function the dispatcher calls",
+                 "depth of douglas_peucker's recursion on the oscillation of the finding dp-recursion-depth (ordinates n, -(n-1), ..., +-1 on the y-axis, tolerance 0.5) for every n in 0..40",
                  "every track of 2 and of 3 fixes on the lattice {0,1}^2 as a Track object (two features, uid/tid/base set) x tolerances {0.5, 1} x "
                  "{Douglas-Peucker, Visvalingam}: positions, feature rows, feature dict, uid/tid/base of the result, input left untouched"]
         if tier == "thorough":
@@ -818,6 +845,31 @@ class P(Prop):
             if rng.random() < 0.15:
                 v[0], v[1] = v[2], v[3]                    # the point is the chord's first end (termination hypothesis of T3)
             out.append({"kind": rng.choice(["dist", "dist", "area"]), "p": v})
+        out += self.depth_cases(random.Random(rng.random()), tier)
+        return out
+
+    def depth_cases(self, rng, tier):
+        """stream `depth` (T16): the DEPTH of douglas_peucker's recursion -- nested calls below the outermost one, measured on the real code by a
+        counting wrapper around the module's function -- against the model's dpDepth. The oscillation of the finding dp-recursion-depth
+        (n fixes on the y-axis, ordinates n, -(n-1), ..., +-1; tolerance 0.5) for every n in 0..40: depth n - 2 (TV.C16.dp_depth_attained);
+        random tracks of the `dp` stream; a few oscillations / zig-zags of 50..300 fixes (each level costs two Python frames here: the
+        wrapper's and the function's)."""
+        out = []
+        for n in range(0, 41):
+            out.append({"kind": "depth", "xs": [0.0] * n, "ys": [float((-1) ** i * (n - i)) for i in range(n)], "tol": 0.5, "style": "oscillation"})
+        for _ in range(1500 if tier == "quick" else 12000):
+            xs, ys, style = self.rand_track(rng)
+            out.append({"kind": "depth", "xs": xs, "ys": ys, "tol": self.rand_tol(rng, xs, ys, style), "style": style})
+        for _ in range(6 if tier == "quick" else 40):
+            n = rng.randrange(50, 301)
+            unit = rng.choice([1.0, 0.5, 2.5])
+            if rng.random() < 0.5:
+                xs, ys, tol, style = [0.0] * n, [unit * (-1) ** i * (n - i) for i in range(n)], 0.5 * unit, "oscillation"
+            else:
+                xs, ys, tol, style = [unit * i for i in range(n)], [unit if i % 2 else 0.0 for i in range(n)], 0.3 * unit, "zigzag"
+            if rng.random() < 0.3:
+                xs, ys = ys, xs
+            out.append({"kind": "depth", "xs": xs, "ys": ys, "tol": tol, "style": style})
         return out
 
     def describe(self, case):
@@ -831,6 +883,11 @@ class P(Prop):
             t["coll_mode"] = "default" if case["mode"] is None else (str(case["mode"]) + ("/" + case["mode_form"] if case.get("mode_form") else ""))
             t["coll_short_tracks"] = sum(1 for n in ns if n < 3)
             t["coll_nodata"] = sum(1 for c in case["tracks"] if c.get("nodata") is not None)
+            return t
+        if k == "depth":
+            n = len(case["xs"])
+            t["n"] = n if n < 10 else ("10+" if n < 50 else "50+")
+            t["depth_style"] = "oscillation/zigzag" if case.get("style") in ("oscillation", "zigzag") else "random"
             return t
         if k in ("dp", "vw", "trk"):
             if case.get("wild"):
@@ -864,7 +921,7 @@ class P(Prop):
             return True
         if case["kind"] == "coll":
             return any(len(c["xs"]) >= 3 for c in case["tracks"])
-        if case["kind"] in ("dp", "vw", "trk"):
+        if case["kind"] in ("dp", "vw", "trk", "depth"):
             return len(case["xs"]) >= 3
         p = case["p"]
         return (p[2], p[3]) != (p[4], p[5])
@@ -1018,6 +1075,8 @@ class P(Prop):
             return self.impl_trk(case)
         if k == "coll":
             return self.impl_coll(case)
+        if k == "depth":
+            return self.impl_depth(case)
         try:
             tr = self.mk(case)
         except (Exception, SystemExit) as e:
@@ -1040,6 +1099,31 @@ class P(Prop):
             kept.append(idx)
             xy.append([o.position.getX(), o.position.getY()])
         return {"kept": kept, "xy": xy, "input_size_after": tr.size()}
+
+    def impl_depth(self, case):
+        """how deep does douglas_peucker(track, tol) recurse? The module's name `douglas_peucker` -- the one the function calls itself
+        through -- is replaced by a counting wrapper for the duration of the call (harness plumbing), the function itself is the real one"""
+        S = self.S
+        try:
+            tr = self.mk(case)
+        except (Exception, SystemExit) as e:
+            return {"harness": "the track of the case could not be built: %r" % (e,)}
+        orig = S.douglas_peucker
+        st = {"cur": 0, "max": 0}
+        def counting(track, eps):
+            st["cur"] += 1
+            if st["cur"] > st["max"]:
+                st["max"] = st["cur"]
+            try:
+                return orig(track, eps)
+            finally:
+                st["cur"] -= 1
+        S.douglas_peucker = counting
+        try:
+            counting(tr, case["tol"])
+        finally:
+            S.douglas_peucker = orig
+        return {"depth": st["max"] - 1}
 
     def impl_trk(self, case):
         # --- building the input (and the state left by earlier calls): harness plumbing, never judged as the implementation's failure
@@ -1169,6 +1253,8 @@ class P(Prop):
         fl = lambda l: ",".join(fbits(fv(v)) for v in l) if l else "_"
         if k == "coll":
             return self.requests_coll(case)
+        if k == "depth":
+            return ["C16.dpdepth %s %s %s" % (fbits(case["tol"]), fl(case["xs"]), fl(case["ys"]))]
         if k == "trk":
             algo = case["algo"]
             rows = ";".join(fl(r) for r in case["rows"]) if (case["rows"] and case["names"]) else "_"
@@ -1214,6 +1300,8 @@ class P(Prop):
             return {"err": ERRMAP.get(r, r)}
         if k == "coll":
             return self.decode_coll(case, replies)
+        if k == "depth":
+            return {"depth": int(r)}
         if k == "trk" and case["via"] == "network":
             r = r.split(" | ")[case.get("net_pos", 0)]      # the geometry of this case's edge
         parts = r.split(" ")
@@ -1356,6 +1444,9 @@ class P(Prop):
             if impl_out.get("err") == model_out.get("err"):
                 return None
             return "impl=%s model=%s" % (impl_out, model_out)
+        if case["kind"] == "depth":
+            return None if impl_out.get("depth") == model_out.get("depth") else "depth of douglas_peucker's recursion: impl=%s model=%s" % (
+                impl_out.get("depth"), model_out.get("depth"))
         if case["kind"] == "dist":
             # the Lean closed form distSegSq (proved equal to distance_to_segment^2, Props/C16 dist_sq_eq) on exact rationals
             p = [F(v) for v in case["p"]]
@@ -1385,6 +1476,8 @@ class P(Prop):
             return None                                      # not an input: lists of different lengths, a CSV description no file yields
         if k == "coll":
             return self.spec_coll(case, out)
+        if k == "depth":
+            return None                                      # the property says nothing about the depth: correspondence only (T16)
         if k == "dist":
             if "err" in out:
                 return "distance_to_segment%s raised %s" % (tuple(case["p"]), out["err"])
